@@ -2,6 +2,8 @@
 
 from __future__ import annotations
 
+from ..vloop import texc
+
 import itertools
 from typing import Any
 
@@ -150,8 +152,8 @@ def make(mix_index: int, maxlen: int, rate_limit: int, restart: bool):
             ctxs = f"mix={mix} rate_limit={rate_limit} restart={restart} result={result} events={events}"
             if not u.done():
                 viols.append((f"join-or-stop-never-returns:{result.get('mode', 'start')}", f"unfinished={xknx.telegrams._unfinished_tasks}; {ctxs}"))  # noqa: SLF001
-            elif u.exception() is not None:
-                viols.append((f"user-call-raises:{type(u.exception()).__name__}", f"{u.exception()!r}; {ctxs}"))
+            elif texc(u) is not None:
+                viols.append((f"user-call-raises:{type(texc(u)).__name__}", f"{texc(u)!r}; {ctxs}"))
             if u.done() and xknx.telegrams._unfinished_tasks:  # noqa: SLF001
                 viols.append(("telegram-not-marked-done", f"unfinished={xknx.telegrams._unfinished_tasks}; {ctxs}"))  # noqa: SLF001
             # order at the interface = queue order of the non-internal outgoing telegrams (+ the follow-up at the end or after its trigger)
